@@ -145,6 +145,21 @@ def scenario(rnd, texts):
     end = rnd.random()
     if end < 0.7:
         req("shutdown", None)
+        if rnd.random() < 0.5:
+            # a client that keeps talking between `shutdown` and `exit`: every request is still owed one response
+            for _ in range(rnd.randint(1, 3)):
+                m = rnd.choice(METHODS + ["shutdown", "textDocument/nosuch"])
+                uri = rnd.choice(uris + ["file:///tmp/never_opened.gdn"])
+                p = None if m == "shutdown" else {"textDocument": {"uri": uri}, "position": {"line": 0, "character": 1}}
+                if m == "textDocument/formatting":
+                    p = {"textDocument": {"uri": uri}, "options": {"tabSize": 2, "insertSpaces": True}}
+                if m == "textDocument/rename":
+                    p["newName"] = "renamed_v"
+                if m == "textDocument/codeAction":
+                    p = {"textDocument": {"uri": uri}, "range": {"start": {"line": 0, "character": 0}, "end": {"line": 0, "character": 3}}, "context": {"diagnostics": []}}
+                if m == "textDocument/references":
+                    p["context"] = {"includeDeclaration": True}
+                req(m, p)
         note("exit", None)
     elif end < 0.9:
         note("exit", None)
@@ -294,7 +309,7 @@ def run(tier, seed):
     vacuity(ndiag > n, f"only {ndiag} publishDiagnostics payloads were compared")
     ck.assumptions += ["diagnostics are compared by range (UTF-16 columns) and severity with `garden check --json`; message texts are not compared",
                        "the server is single threaded, so trace validation is linear; requests are sent one at a time"]
-    return ck.finish(rule="seeded sequences of 6-14 messages: initialize, didOpen / didChange / didClose over 17 hostile texts and 12 generated programs, every request method at in-range and out-of-range positions and on never-opened documents, unknown methods, malformed params, unknown notifications, shutdown / exit endings; every scenario distinct; corrupted copies of accepted traces (dropped / duplicated / re-identified responses, diagnostics for another text) must be rejected", extra={"corrupted_traces_rejected": rejected})
+    return ck.finish(rule="seeded sequences of 6-14 messages: initialize, didOpen / didChange / didClose over 17 hostile texts and 12 generated programs, every request method at in-range and out-of-range positions and on never-opened documents, unknown methods, malformed params, unknown notifications, shutdown / exit endings (half of them with further requests between shutdown and exit); every scenario distinct; corrupted copies of accepted traces (dropped / duplicated / re-identified responses, diagnostics for another text) must be rejected", extra={"corrupted_traces_rejected": rejected})
 
 
 def replay(rec):
